@@ -340,6 +340,56 @@ Definition tids (st : state) : list nat := List.seq 0 (length (thr st)).
 Definition stuckb (st : state) : bool := forallb (fun t => negb (enabledb st t)) (tids st).
 Definition deadb (st : state) : bool := negb (final st) && stuckb st.
 
+(** * The value-level glue of [wait] (run.rs:1537-1605): the shape of the result
+    The interleaving model above abstracts a thread's result to its data; this part adds the shape.
+    [ish] is the shape of the id array, [rows] the results of the named threads in id-array order
+    (C13_wait_order: that is the order in which wait collects them). *)
+Definition sval := (list nat * list N)%type.              (* shape, data in row-major order *)
+Inductive wres := WVal (v : sval) | WErr (code : N).      (* code 0: "A thread errored"; k: the child's own error k *)
+
+Fixpoint list_eqb (a b : list nat) : bool :=
+  match a, b with
+  | [], [] => true
+  | x :: a', y :: b' => (x =? y) && list_eqb a' b'
+  | _, _ => false
+  end.
+
+(** the loop at run.rs:1571: results in order, the first error ends it with the child's error (`?`) *)
+Fixpoint collect (rows : list wres) : list sval + N :=
+  match rows with
+  | [] => inl []
+  | WErr c :: _ => inr c
+  | WVal v :: r => match collect r with inl vs => inl (v :: vs) | inr c => inr c end
+  end.
+
+Definition glue_other : N := 999999.                      (* any other error (rows of different shapes, ...) *)
+
+Definition wait_glue (ish : list nat) (rows : list wres) : wres :=
+  match ish with
+  | [] =>                                                 (* run.rs:1540 ids.shape.is_empty(): one thread, its value as it is *)
+    match rows with
+    | [WVal v] => WVal v
+    | [WErr _] => WErr 0                                  (* run.rs:1551 map_err(|_| "A thread errored") *)
+    | _ => WErr glue_other
+    end
+  | _ =>                                                  (* run.rs:1569-1603: one row per id, then shape := ids.shape ++ row shape *)
+    match collect rows with
+    | inr c => WErr c
+    | inl [] => WVal (ish, [])
+    | inl (v :: vs) =>
+      if forallb (fun x => list_eqb (fst x) (fst v)) vs
+      then WVal (ish ++ fst v, concat (map snd (v :: vs)))
+      else WErr glue_other
+    end
+  end.
+
+Definition wres_eqb (a b : wres) : bool :=
+  match a, b with
+  | WVal (s1, d1), WVal (s2, d2) => list_eqb s1 s2 && (length d1 =? length d2) && forallb (fun p => N.eqb (fst p) (snd p)) (combine d1 d2)
+  | WErr c1, WErr c2 => N.eqb c1 c2
+  | _, _ => false
+  end.
+
 (** * Verdicts for the tie: schedulers and a bounded exhaustive search *)
 Definition enabled_list (st : state) : list nat := filter (enabledb st) (tids st).
 Definition frees_worker (st : state) (t : nat) : bool :=
